@@ -279,7 +279,8 @@ def childNames (es : Entries) (P : Path) : List String :=
 
 inductive Item
   | path (p : Path)      -- a recognised collection, by the name the listing gives it
-  | fuel                 -- recursion budget exhausted: cyclic namespace (or a self-referential external link)
+  | fuel                 -- recursion budget exhausted: infinite namespace (a resolvable link to an ancestor), or a
+                         -- self-referential external link
 deriving DecidableEq, Repr, Inhabited
 
 /-- `visititems`: children of the group at canonical location `(f, P)` displayed as `disp` -/
@@ -297,7 +298,9 @@ def walk (fs : FS) (v : Variant) : Nat → String → Path → Path → List Ite
           (if fmtOK a then [Item.path (disp ++ [x])] else []) ++ walk fs v n f (P ++ [x]) (disp ++ [x])
         | some (.soft t) =>
           match resolve fs f t with
-          | none => if loops fs f t then [.fuel] else []    -- `values()` yields None: skipped
+          -- a link that does not resolve (`get` yields None) or cannot be traversed (a cycle of links:
+          -- RuntimeError "too many links", caught since fix D28) is skipped
+          | none => []
           | some (g, Q) =>
             match lookupE fs g Q with
             | some (.group _ a) =>
@@ -308,7 +311,7 @@ def walk (fs : FS) (v : Variant) : Nat → String → Path → Path → List Ite
           -- target file creates one): the name HDF5 reports is not modelled
           if g0 = f then [.fuel] else
           match resolve fs g0 t with
-          | none => if loops fs g0 t then [.fuel] else []
+          | none => []
           | some (g, Q) =>
             let d := linkName fs v g0 t (disp ++ [x])
             match lookupE fs g Q with
